@@ -208,7 +208,8 @@ def huge_labels(ctx, i):
     r = gen.rng(ctx.seed, "c12h", i)
     it = ["SEMANTIC", "MATCHED_INSTANCE"][i % 2]
     base = 2**60
-    defined = [base + 2 * j for j in range(13)]
+    step = [2, 1000, 4096, 3][i % 4]  # densely and widely spaced ids (membership tests switch algorithm with the range)
+    defined = [base + step * j for j in range(13)]
     gdef = {"low": {"labels": defined[:6], "kind": "plain", "single": False}, "high": {"labels": defined[6:], "kind": ["plain", "merge"][i % 2], "single": False}}
     pred = np.zeros((4, 6), dtype=np.uint64)
     refa = np.zeros((4, 6), dtype=np.uint64)
@@ -221,7 +222,7 @@ def huge_labels(ctx, i):
     if "ERR" in ok:
         ctx.viol("grouped_evaluate_raised", {"pred": pred, "ref": refa, "groups": gdef, "exc": ok["ERR"]}, features={"input": it, "huge_labels": True})
         return
-    bad = base + 1 + 2 * int(r.integers(0, 12))
+    bad = base + 1 + step * int(r.integers(0, 12))
     where = ["pred", "ref", "both"][i % 3]
     for arr, name in ((pred, "pred"), (refa, "ref")):
         if where in (name, "both"):
